@@ -50,6 +50,12 @@ def winTable (c : Case) : List (Dur × Int) :=
     (c.findAll ("win" ++ x)).toList.map fun r =>
       (parseDur c x (nat (r.getD 1 "9")), timeOf (r.getD 2 "0") (r.getD 3 "0")))
 
+/-- the overflowed window starts (durations beyond the range of `time.Duration` only) -/
+def rawTable (c : Case) : List (Dur × Int) :=
+  (["", "2"].flatMap fun x =>
+    (c.findAll ("winraw" ++ x)).toList.map fun r =>
+      (parseDur c x (nat (r.getD 1 "9")), timeOf (r.getD 2 "0") (r.getD 3 "0")))
+
 def subOf (tbl : List (Dur × Int)) (_latest : Int) (d : Dur) : Int :=
   match tbl.find? (fun e => e.1 == d) with
   | some e => e.2
@@ -86,6 +92,7 @@ def checkRun (c : Case) (x : String) (list : List PSnap) (now latestImpl : Int) 
     (o : Outcome) : Except Verdict (List String) := do
   let p := parsePolicy c x
   let sub := subOf tbl
+  let subRaw := subOf (rawTable c ++ tbl)
   -- every window the policy needs must be in the oracle table (when the list is non-empty)
   let needed := ([p.within] ++ withinKinds.map p.withinOf).filter (!·.zero)
   if !list.isEmpty && needed.any (fun d => !(tbl.any (·.1 == d))) then
@@ -96,7 +103,9 @@ def checkRun (c : Case) (x : String) (list : List PSnap) (now latestImpl : Int) 
       if (o.keep ++ o.remove).length != list.length || !(list.all fun s => (o.keep ++ o.remove).count s.sn.id == 1) then
         "C22:partition:keep-remove-do-not-partition-the-list"
       else if o.reasons.any (·.2.isEmpty) || o.reasons.length != o.keep.length then "C22:reasons:kept-without-reason"
-      else if needed.any hugeHours then "C22:within:hours-beyond-time.Duration-range"
+      else if needed.any hugeHours && specOK subRaw latestImpl list p o.keep o.remove (o.reasons.map (·.2.length)) then
+        -- explained exactly by the overflow of `time.Hour * time.Duration(-hours)`
+        "C22:within:hours-beyond-time.Duration-range"
       else if keysRegular sorted then "C22:rules:kept-set-differs-from-documented-rules"
       else "C22:rules:kept-set-differs-irregular-keys"
     throw (.specfalse sig s!"keep={o.keep} remove={o.remove}")
@@ -111,7 +120,11 @@ def checkRun (c : Case) (x : String) (list : List PSnap) (now latestImpl : Int) 
     -- a window beyond the range of time.Duration that only shows in the reasons is the same
     -- failing input class as one that changes the kept set
     if mreasons != o.reasons && needed.any hugeHours then
-      throw (.specfalse "C22:within:hours-beyond-time.Duration-range" s!"reasons model={mreasons} impl={o.reasons}")
+      match applyPolicy subRaw now list p with
+      | .ok ds' =>
+        if ((reasonsOf ds').map fun e => (e.1.sn.id, e.2)) == o.reasons then
+          throw (.specfalse "C22:within:hours-beyond-time.Duration-range" s!"reasons model={mreasons} impl={o.reasons}")
+      | .panic => pure ()
     if mreasons != o.reasons then throw (.differ ("reasons" ++ x) s!"model={mreasons} impl={o.reasons}")
     if !o.counters.isEmpty then
       let mc := (ds.filter (·.keep)).map fun d => (d.snap.sn.id, d.counters)
@@ -173,7 +186,11 @@ def handle (c : Case) : Verdict :=
             let lawBroken := ([0,1,2,3,4,5] : List Nat).any fun i =>
               let d := parseDur c "" i; let d' := parseDur c "2" i
               !d.zero && subOf tbl 0 d' > subOf tbl 0 d
-            let sig := if ([0,1,2,3,4,5] : List Nat).any (fun i => hugeHours (parseDur c "2" i)) then "C22:within:hours-beyond-time.Duration-range"
+            let rawExplains := match applyPolicy (subOf (rawTable c ++ tbl)) now list q with
+              | .ok ds => (keepOf ds).map (·.sn.id) == o2.keep
+              | .panic => false
+            let sig := if ([0,1,2,3,4,5] : List Nat).any (fun i => hugeHours (parseDur c "2" i)) && rawExplains then
+                "C22:within:hours-beyond-time.Duration-range"
               else if lawBroken then "C22:monotone:longer-duration-gives-later-window-start"
               else if p.tags.length != q.tags.length then "C22:monotone:tags-or-counts" else "C22:monotone:counts-or-durations"
             .specfalse sig s!"keep={o.keep} keep2={o2.keep}"
